@@ -72,7 +72,7 @@ def is_packed(sizes):
 
 def oracle_chsize(bs, splits, size, res):
     """splits: list of (sz, st, limit).  Properties of a successful parity_chsize, from the C answer alone.
-    Returns (violation or None, refuted_instance: bool)"""
+    Returns (violation or None, False)"""
     if res is None:
         return 'unparsable answer', False
     if 'bad' in res:
@@ -100,14 +100,11 @@ def oracle_chsize(bs, splits, size, res):
     mod = any(r != sz for (r, _, _), (sz, _, _) in zip(new, splits))
     if mod != bool(res['mod']):
         return 'is_modified=%d but sizes %s' % (res['mod'], 'changed' if mod else 'did not change'), False
-    # strong reading of "only the last used split grows": known to fail on non-packed sizes (refuted theorem)
-    refuted = False
+    # "only the last used split grows": a split with a used split anywhere after it never grows
     for i in range(len(splits)):
         if any(splits[j][0] != 0 for j in range(i + 1, len(splits))) and new[i][0] > splits[i][0]:
-            if is_packed([s[0] for s in splits]):
-                return 'split %d grew from %d to %d although a later split is in use (packed sizes)' % (i, splits[i][0], new[i][0]), False
-            refuted = True
-    return None, refuted
+            return 'split %d grew from %d to %d although a later split is in use (recorded sizes %s)' % (i, splits[i][0], new[i][0], [x[0] for x in splits]), False
+    return None, False
 
 
 def flat_history(bs, toks):
@@ -266,6 +263,9 @@ def gen_ops_cases(rng, count):
         size = 0
         for sess in range(rng.randrange(2, 6)):
             if sess:
+                if rng.random() < 0.3:      # disk space freed / used up between two commands
+                    sp = rng.randrange(n)
+                    ops.append('L%d:%d' % (sp, rng.choice([0, rng.randrange(1, bs), rng.randrange(bs, 9 * bs)])))
                 ops.append('O')
             r = rng.random()
             if r < 0.55:
@@ -561,13 +561,6 @@ def run_scenario(chk, tool, model, rng, root, idx, stats):
     return desc
 
 
-# ------------------------------------------------------------------------------------------------
-# the witness of the refuted theorems, replayed on the real code (unit level)
-
-REFUTED_CHSIZE = 'chsize 1024 1 3 1024 1024 0 0 0 0 1024 1024 0 3072'
-# splits [4,0,4]; block written at position 1 (in split 2); grow to 12 with nothing refusing; re-open; read position 1
-REFUTED_OPS_SETUP = None   # built in main: needs a state [bs,0,bs], reached with limits that change (disk space freed)
-
 
 def main(tier, replay=None):
     chk = Check('C17', tier, 'proof')
@@ -588,7 +581,7 @@ def main(tier, replay=None):
                     'hand model coq/Split/SplitModel.v of cmdline/parity.c (split_find, read/write addressing, fill loop, chsize) and of the dropped-split rule of state.c, tied by correspondence only',
                     'extraction (ExtrOcamlBasic only) + ocaml/C17/driver.ml', 'harness/c/c17_drv.c (#includes the working tree parity.c)',
                     'file system: ftruncate to a smaller size never fails, a file extended by ftruncate/fallocate/pwrite reads as zeros, pwrite/pread are all-or-nothing',
-                    'growth oracle: theorems fill_maximal / packed_invariant / split_concat assume a monotone oracle that does not change during the history (true for --test-parity-limit; a real disk filling up or being freed is outside)',
+                    'growth oracle: fill_maximal assumes a monotone oracle (true for --test-parity-limit; a real full disk is assumed monotone); the refinement theorems hold for any oracle',
                     'python oracles in check_C17.py (prefix reconstruction, flat-file history)'])
     if regen_msgs:
         chk.notes.append('translator: ' + '; '.join(regen_msgs))
@@ -613,7 +606,7 @@ def main(tier, replay=None):
             print(json.dumps(rp, indent=1)[:4000])
         return 0
 
-    stats = dict(find=0, find_inside=0, hbit=0, limit=0, chsize=0, chsize_ok=0, chsize_limit_hit=0, chsize_err=0, chsize_refuted_instances=0,
+    stats = dict(find=0, find_inside=0, hbit=0, limit=0, chsize=0, chsize_ok=0, chsize_limit_hit=0, chsize_err=0, 
                  ops=0, ops_multi_split=0, drift=0)
     drift_cases = []
 
@@ -654,9 +647,7 @@ def main(tier, replay=None):
         if t[0] == 'chsize':
             n = int(t[3])
             spl = [tuple(map(int, t[4 + 3 * i:7 + 3 * i])) for i in range(n)]
-            v, ref = oracle_chsize(int(t[1]), spl, int(t[4 + 3 * n]), parse_chsize_out(c))
-            if ref:
-                stats['chsize_refuted_instances'] += 1
+            v, _ = oracle_chsize(int(t[1]), spl, int(t[4 + 3 * n]), parse_chsize_out(c))
             return v
         if t[0] == 'ops':
             return oracle_ops(int(t[1]), ln, c)
@@ -713,26 +704,23 @@ def main(tier, replay=None):
             stats['ops_multi_split'] += 1
     compare('ops', oc, oracle_any, nt_ops)
 
-    # ---- refuted theorems: replay the witnesses on the real code
-    w = run_lines(drv, [REFUTED_CHSIZE], shards=1, env=env)[0]
-    wm = run_lines(model, [REFUTED_CHSIZE], shards=1)[0]
-    confirmed = w.startswith('ok 1 3072:3072:') and ' 0:0:0 0:0:0' in w
-    chk.cov['refuted_witness'] = {'theorems': ['C17_chsize_only_last_grows_refuted', 'C17_read_after_resize_refuted'],
-                                  'case_line': REFUTED_CHSIZE, 'c': w, 'model': wm, 'confirmed_on_real_code': confirmed,
-                                  'meaning': 'recorded sizes [1024,0,1024] (unused split before a used one): a resize to 3072 grows split 0 to 3072 and '
-                                             'empties split 2, so the address map moves and the parity held by split 2 is lost; needs a growth oracle that '
-                                             'changes between runs (disk space freed), not reachable with a constant --test-parity-limit'}
-    if w != wm:
-        stats['drift'] += 1
-        drift_cases.append({'case_line': REFUTED_CHSIZE, 'c': w, 'model': wm})
-
-    # ---- the same defect through the real binary: "disk space freed" = the limit of the first sync is lifted
+    # ---- regression of the defect repaired by /repo commit 391ce18 (unused split between two used ones made split 0
+    #      "growing"; the next sync with more room moved the address map and dropped the parity of the last split).
+    #      unit level: corpus/C17/hand.txt holds the case, judged by oracle_chsize like every other case.
+    #      binary level: harness/py/c17_repro_midzero.py; a "fixed" finding suppresses nothing.
     try:
         import c17_repro_midzero
         rb = c17_repro_midzero.reproduce(tool, os.path.join(scratch, 'repro'))
-    except Exception as e:      # never let the illustration break the check
+    except Exception as e:
         rb = {'error': repr(e)}
-    chk.cov['refuted_witness']['binary_level'] = rb
+    chk.cov['regression_midzero_split'] = rb
+    if rb.get('error'):
+        chk.violation('regress_midzero_run', 'the regression scenario c17_repro_midzero could not be run: %s' % rb['error'], rb, no_input=True)
+    elif rb.get('defect_reproduced') or not rb.get('passed'):
+        chk.violation('regress_midzero', 'split parity loses data when an unused split lies between two used ones: after sync #1 the splits have %s bytes, '
+                      'sync #2 (limit lifted, one file added) exits %s and leaves %s, check exits %s (%s)' %
+                      (rb.get('sizes_after_sync1'), rb.get('sync2_rc'), rb.get('sizes_after_sync2'), rb.get('check2_rc'), rb.get('check2_tail')),
+                      dict(rb, how='python3 harness/py/c17_repro_midzero.py'))
 
     # ---- command level
     cstats = dict(commands=0, steps=0, level_checks=0, expected_failures=0, limit_hit_mid_growth=0, levels_spanning_several_splits=0,
@@ -768,6 +756,5 @@ def main(tier, replay=None):
     chk.assumptions += ['the growth oracle is --test-parity-limit (monotone, constant over the history); real ENOSPC behaviour is not exercised',
                         'command level uses blocksize 1 KiB, 3 data disks, 1..3 parity levels, 2..4 splits per level',
                         'twin arrays share the data directories; fix is run on the split array only, after the comparison',
-                        'KNOWN DEFECT (not a violation of the run): unused split before a used one makes the preceding split growable '
-                        '(C17_chsize_only_last_grows_refuted, witness replayed on the real parity.c: %s)' % ('confirmed' if confirmed else 'NOT confirmed')]
+                        'regression scenario of the repaired mid-zero-split defect (c17_repro_midzero) is run on every check and counts as a violation if it fails']
     return chk.finish()
